@@ -41,6 +41,10 @@ class FieldArrayModel(FieldCompositeModel):
         self.product_expr_btor = None
         self.product_expr = None
         
+        # Solver instances the cached nodes belong to
+        self.sum_expr_solver = None
+        self.product_expr_solver = None
+        
         self.size = FieldScalarModel(
             "size",
             32,
@@ -171,8 +175,10 @@ class FieldArrayModel(FieldCompositeModel):
         return result_bits
         
     def build_sum_expr(self, btor, ctx_width=-1):
-        if self.sum_expr_btor is None:
+        # A cached node is only valid for the solver instance it was built for
+        if self.sum_expr_btor is None or self.sum_expr_solver is not btor:
             self.sum_expr_btor = self.get_sum_expr().build(btor, ctx_width)
+            self.sum_expr_solver = btor
         return self.sum_expr_btor
     
     def get_product_expr(self):
@@ -197,8 +203,10 @@ class FieldArrayModel(FieldCompositeModel):
         return self.product_expr
         
     def build_product_expr(self, btor, ctx_width=-1):
-        if self.product_expr_btor is None:
+        # A cached node is only valid for the solver instance it was built for
+        if self.product_expr_btor is None or self.product_expr_solver is not btor:
             self.product_expr_btor = self.get_product_expr().build(btor, ctx_width)
+            self.product_expr_solver = btor
         return self.product_expr_btor    
         
     def accept(self, v):
